@@ -8,6 +8,7 @@ product spaces at once: the functional's OWN inner product is the inner product 
 -/
 import OdlModel.Lemmas.Functionals
 import OdlModel.Lemmas.WeightedSpace
+import OdlModel.Model.Prox
 import Mathlib.Analysis.InnerProductSpace.Calculus
 import Mathlib.Analysis.InnerProductSpace.Adjoint
 import Mathlib.Analysis.Calculus.Gradient.Basic
@@ -804,3 +805,169 @@ example : LipOn (fun x => (Fn.lscal 2 (.coord (.huber (1 / 2))) : Fn (WSp ![1 / 
   simp [Fn.lip, h, Lip.scale, Lip.ofK, Lip.eval, rootsVal, absK_eq_abs]
   norm_num
 end example_weighted
+
+/-! ### `grad_sound` on the weighted spaces, space hypotheses discharged -/
+section weighted3
+variable {n : ℕ} (w : Fin n → ℝ) [hw : Fact (∀ i, 0 < w i)]
+
+namespace OdlModel.C09
+/-- `WF` on the weighted spaces with every hypothesis about the SPACE discharged: coordinate-wise
+leaves only need to stay away from their kinks (`LeafOK`), pointwise multiplication needs
+nothing. What remains are conditions on the INPUT (quotient denominators, kinks) and on
+operators supplied by the user (`QuadraticForm` / `FunctionalComp`). -/
+def WFw {n : ℕ} (w : Fin n → ℝ) [Fact (∀ i, 0 < w i)] : Fn (WSp w) ℝ → WSp w → Prop
+  | .coord b, x => LeafOK b x.val
+  | .l2sq, _ => True
+  | .const _, _ => True
+  | .indZero _, _ => False
+  | .lin _ _, _ => True
+  | .quad A At _ _ _ _ _, _ =>
+      ∃ A' : WSp w →L[ℝ] WSp w, (∀ v, A v = A' v) ∧ (∀ v, At v = ContinuousLinearMap.adjoint A' v)
+  | .lscal _ f, x => WFw w f x
+  | .rscal f s, x => WFw w f ((wOps w).smul s x)
+  | .rvec f v _, x => WFw w f ((wOps w).mul v x)
+  | .sum f g, x => WFw w f x ∧ WFw w g x
+  | .ssum f _, x => WFw w f x
+  | .trans f t, x => WFw w f ((wOps w).sub x t)
+  | .qp f _ _ _ _, x => WFw w f x
+  | .prod f g, x => WFw w f x ∧ WFw w g x
+  | .quot f g, x => WFw w f x ∧ WFw w g x ∧ g.value (wOps w) x ≠ 0
+  | .comp f op dAdj _, x =>
+      (∃ D : WSp w →L[ℝ] WSp w, HasFDerivAt op D x ∧
+        ∀ y, dAdj x y = ContinuousLinearMap.adjoint D y) ∧ WFw w f (op x)
+  | .breg f _ _, x => WFw w f x
+  | .infconv _ _, _ => False
+  | .menv _ _ _, _ => False
+  | .dconj _, _ => False
+end OdlModel.C09
+
+/-- Pointwise multiplication by a vector is a bounded operator on `WSp w`, symmetric for the
+weighted inner product (the hypothesis of the `FunctionalRightVectorMult` gradient rule). -/
+theorem C09.wOps_mul_symmetric (v : WSp w) :
+    ∃ M : WSp w →L[ℝ] WSp w, (∀ z, (wOps w).mul v z = M z) ∧ ∀ a b, ⟪M a, b⟫ = ⟪a, M b⟫ := by
+  let L : WSp w →ₗ[ℝ] WSp w :=
+    { toFun := fun x => WSp.of (fun i => v.val i * x.val i)
+      map_add' := fun x y => by
+        apply WSp.ext'; funext i
+        show v.val i * (x.val i + y.val i) = v.val i * x.val i + v.val i * y.val i
+        ring
+      map_smul' := fun c x => by
+        apply WSp.ext'; funext i
+        show v.val i * (c * x.val i) = c * (v.val i * x.val i)
+        ring }
+  refine ⟨LinearMap.toContinuousLinearMap L, fun z => rfl, fun a b => ?_⟩
+  rw [WSp.inner_def, WSp.inner_def]
+  refine Finset.sum_congr rfl fun i _ => ?_
+  show w i * (v.val i * a.val i) * b.val i = w i * a.val i * (v.val i * b.val i)
+  ring
+
+theorem C09.wfw_wf (t : Fn (WSp w) ℝ) (x : WSp w) (h : WFw w t x) : WF (wOps w) t x := by
+  induction t generalizing x with
+  | coord b => exact C09.wOps_leaf_wf w b x h
+  | l2sq => trivial
+  | const c => trivial
+  | indZero c => exact h
+  | lin b c => trivial
+  | quad A At Ainv AinvT hasB b c => exact h
+  | lscal s f ih => exact ih x h
+  | rscal f s ih => exact ih _ h
+  | rvec f v vinv ih => exact ⟨C09.wOps_mul_symmetric w v, ih _ h⟩
+  | sum f g ihf ihg => exact ⟨ihf x h.1, ihg x h.2⟩
+  | ssum f c ih => exact ih x h
+  | trans f t ih => exact ih _ h
+  | qp f a hasU u c ih => exact ih x h
+  | prod f g ihf ihg => exact ⟨ihf x h.1, ihg x h.2⟩
+  | quot f g ihf ihg => exact ⟨ihf x h.1, ihg x h.2.1, h.2.2⟩
+  | comp f op dAdj opLin ih => exact ⟨h.1, ih _ h.2⟩
+  | breg f p q ih => exact ih x h
+  | infconv f g _ _ => exact h
+  | menv f P σ _ => exact h
+  | dconj f _ => exact h
+
+/-- **`grad_sound` on the weighted spaces without hypotheses on the space**: for every `n`, all
+weights `w > 0` and every expression whose coordinate-wise leaves (L1, Huber) are computed by the
+executed list functions, at every point satisfying `WFw` (no leaf argument at a kink, non-zero
+quotient denominators, user operators bounded/differentiable with the supplied adjoint), the
+coded gradient is the gradient of the coded value w.r.t. the weighted inner product, and
+`derivative(x)(d)` is the Fréchet derivative applied to `d`. -/
+theorem C09.grad_sound_weighted (t : Fn (WSp w) ℝ) (x d : WSp w) (h : WFw w t x) :
+    HasGradientAt (fun z => t.value (wOps w) z) (t.grad (wOps w) x) x ∧
+      fderiv ℝ (fun z => t.value (wOps w) z) x d = t.deriv (wOps w) x d :=
+  ⟨C09.grad_sound _ _ _ _ t x (C09.wfw_wf w t x h),
+    C09.derivative_eq_inner_grad _ _ _ _ t x d (C09.wfw_wf w t x h)⟩
+end weighted3
+
+/-- Non-vacuity with leaves, a pointwise multiplication and a quotient, on two cells of volume
+1/4: `f(z) = Huber_{1/2}((2,−1)·z) / (‖z‖² + 1)` at `x = (1, −2)`. -/
+example : WFw ![1 / 4, 1 / 4]
+    (Fn.quot (.rvec (.coord (.huber (1 / 2))) (WSp.of ![2, -1]) (WSp.of ![1 / 2, -1])) (.ssum .l2sq 1))
+    (WSp.of ![1, -2]) := by
+  refine ⟨⟨by norm_num, ?_⟩, trivial, ?_⟩
+  · intro i
+    show |((wOps ![1 / 4, 1 / 4]).mul (WSp.of ![2, -1]) (WSp.of ![1, -2])).val i| ≠ 1 / 2
+    fin_cases i <;> simp [wOps, eOps, WSp.val_of] <;> norm_num
+  · show ⟪(WSp.of ![1, -2] : WSp ![1 / 4, 1 / 4]), WSp.of ![1, -2]⟫ + 1 ≠ 0
+    have := real_inner_self_nonneg (x := (WSp.of ![1, -2] : WSp ![1 / 4, 1 / 4]))
+    linarith
+
+/-! ### MoreauEnvelope: the true Lipschitz constant -/
+section menv
+variable {E : Type} [NormedAddCommGroup E] [InnerProductSpace ℝ E]
+
+/-- **The true Lipschitz constant of `MoreauEnvelope.gradient`** (the code passes `nan`): if the
+proximal `P` is firmly non-expansive (`⟪P x − P y, (x − P x) − (y − P y)⟫ ≥ 0`, true for every
+resolvent of a monotone relation), the model gradient `(Fn.menv f P σ).grad = x/σ − P(x)/σ` is
+`1/σ`-Lipschitz — for every inner expression `f`, every real inner-product space. -/
+theorem C09.menv_lipschitz (μ : E → E → E) (cv : Builtin ℝ → E → ℝ) (cd : Builtin ℝ → E → Bool)
+    (cg : Builtin ℝ → E → E) (f : Fn E ℝ) (P : E → E) (σ : ℝ) (hσ : 0 < σ)
+    (hP : ∀ x y, 0 ≤ ⟪P x - P y, (x - P x) - (y - P y)⟫) :
+    LipOn (fun x => (Fn.menv f P σ).grad (eOps μ cv cd cg) x) (1 / σ) := by
+  intro x y
+  show ‖((1 / σ) • x - (1 / σ) • P x) - ((1 / σ) • y - (1 / σ) • P y)‖ ≤ 1 / σ * ‖x - y‖
+  have e : ((1 / σ) • x - (1 / σ) • P x) - ((1 / σ) • y - (1 / σ) • P y)
+      = (1 / σ) • ((x - y) - (P x - P y)) := by
+    simp only [smul_sub]; abel
+  rw [e, norm_smul, Real.norm_eq_abs, abs_of_pos (by positivity : 0 < 1 / σ)]
+  refine mul_le_mul_of_nonneg_left ?_ (by positivity)
+  set a := x - y with ha
+  set b := P x - P y with hb
+  have h0 := hP x y
+  have e2 : (x - P x) - (y - P y) = a - b := by rw [ha, hb]; abel
+  rw [e2, inner_sub_right, real_inner_self_eq_norm_sq] at h0
+  have hsq : ‖a - b‖ ^ 2 ≤ ‖a‖ ^ 2 := by
+    rw [norm_sub_sq_real]
+    have : ⟪a, b⟫ = ⟪b, a⟫ := real_inner_comm _ _
+    nlinarith [sq_nonneg ‖b‖]
+  exact (pow_le_pow_iff_left₀ (norm_nonneg _) (norm_nonneg _) two_ne_zero).mp hsq
+
+/-- The hypothesis holds for the executed proximal of `MoreauEnvelope(L2NormSquared, σ)`:
+C07's coded `ProximalL2Squared` without data term is `x ↦ x/(1+2σ)` (entry-wise), a contraction
+factor in `[0, 1]`, hence firmly non-expansive. -/
+theorem C09.menv_l2sq_prox_firm (σ : ℝ) (hσ : 0 < σ) :
+    (∀ t : ℝ, OdlModel.Prox.l2sqCode 1 σ t 0 = (1 / (1 + 2 * σ)) * t) ∧
+    ∀ x y : E, 0 ≤ ⟪(1 / (1 + 2 * σ)) • x - (1 / (1 + 2 * σ)) • y,
+      (x - (1 / (1 + 2 * σ)) • x) - (y - (1 / (1 + 2 * σ)) • y)⟫ := by
+  constructor
+  · intro t
+    unfold OdlModel.Prox.l2sqCode
+    simp only [mul_zero, add_zero, mul_one]
+    ring
+  · intro x y
+    set c := 1 / (1 + 2 * σ) with hc
+    have hc0 : 0 ≤ c := by positivity
+    have hc1 : c ≤ 1 := by
+      rw [hc, div_le_one (by positivity)]; linarith
+    have e1 : c • x - c • y = c • (x - y) := by rw [smul_sub]
+    have e2 : (x - c • x) - (y - c • y) = (1 - c) • (x - y) := by
+      rw [sub_smul, one_smul, smul_sub]; abel
+    rw [e1, e2, real_inner_smul_left, real_inner_smul_right, real_inner_self_eq_norm_sq]
+    have : 0 ≤ c * (1 - c) := mul_nonneg hc0 (by linarith)
+    nlinarith [sq_nonneg ‖x - y‖]
+
+/-- Non-vacuity: `MoreauEnvelope(L2NormSquared, 1)` on `E = ℝ` (`P x = x/3`): the model gradient
+is 1-Lipschitz. -/
+example : LipOn (fun x : ℝ => (Fn.menv .l2sq (fun x => (1 / (1 + 2 * 1) : ℝ) • x) 1 : Fn ℝ ℝ).grad
+    (eOps (· * ·) (fun _ _ => 0) (fun _ _ => true) (fun _ _ => 0)) x) (1 / 1) :=
+  C09.menv_lipschitz _ _ _ _ _ _ 1 one_pos (C09.menv_l2sq_prox_firm (E := ℝ) 1 one_pos).2
+
+end menv
